@@ -132,9 +132,9 @@ theorem recv_typed_agree (T : TcFacts) (x : Opnd) (hxt : x.ty.isUntyped = false)
   cases hty : x.ty with
   | untyped u => simp [hty, Ty.isUntyped] at hxt
   | nil => simp [hty, Ty.isUntyped] at hxt
-  | chan d st => cases d <;> simp [Ty.kind?, Ty.rtype?, RTy.kind]
-  | iface i m => by_cases hm : m.isEmpty <;> simp [Ty.kind?, Ty.rtype?, RTy.kind, hm]
-  | _ => simp [Ty.kind?, Ty.rtype?, RTy.kind]
+  | chan d st => cases d <;> simp [Ty.kind?, Ty.rtype?, RTy.kind, Ty.isNil]
+  | iface i m => by_cases hm : m.isEmpty <;> simp [Ty.kind?, Ty.rtype?, RTy.kind, hm, Ty.isNil]
+  | _ => simp [Ty.kind?, Ty.rtype?, RTy.kind, Ty.isNil]
 
 /-! ### constants -/
 
@@ -508,31 +508,32 @@ theorem callValue_conv_agree (rets : List STy) : callValueY TE true rets = callV
   | cons r rest => cases rest <;> rfl
 
 /-- F12-7 (82e65a0): a send statement is the direction test plus the assignment of the value to the element type.
-    For every channel operand but `nil` the rule agrees with the specification as soon as the assignment check
+    For EVERY channel operand (`nil` included since 2992617) the rule agrees with the specification as soon as the assignment check
     does (`assignment_typed_agree` for typed values; the constants are covered by the correspondence) -/
-theorem send_agree (c v : Opnd) (hn : c.ty ≠ .nil)
+theorem send_agree (c v : Opnd)
     (ha : ∀ d t, c.ty = .chan d t → assignmentY FE v (.s t) = (if assignableG v (.s t) then .ok () else .err)) :
     sendY TE c v = sendG c v := by
   have h1 : TE.sendValueChecked = true := rfl
   have h2 : TE.sendDirChecked = true := rfl
+  have h3 : TE.typeKindNilSafe = true := rfl
   have e1 : TE.ops = FE := rfl
   unfold sendY sendG kindOf
-  rw [h1, h2, e1]
+  rw [h1, h2, h3, e1]
   cases hty : c.ty with
-  | nil => exact absurd hty hn
+  | nil => simp [Ty.isNil, Res.bind, bind]
   | chan d t =>
     have := ha d t hty
-    cases d <;> simp [Ty.kind?, Ty.rtype?, RTy.kind, this, Res.bind, bind]
-  | iface i m => by_cases hm : m.isEmpty <;> simp [Ty.kind?, Ty.rtype?, RTy.kind, hm, Res.bind, bind]
-  | _ => simp [Ty.kind?, Ty.rtype?, RTy.kind, Res.bind, bind]
+    cases d <;> simp [Ty.isNil, Ty.kind?, Ty.rtype?, RTy.kind, this, Res.bind, bind, pure]
+  | iface i m => by_cases hm : m.isEmpty <;> simp [Ty.isNil, Ty.kind?, Ty.rtype?, RTy.kind, hm, Res.bind, bind, pure]
+  | _ => simp [Ty.isNil, Ty.kind?, Ty.rtype?, RTy.kind, Res.bind, bind, pure]
 
 /-- F12-7: a typed non-constant value sent on a channel: exactly Go's rule, outside the two open classes
     (interface value for a concrete element type F12-6, reflect collision F12-5) -/
-theorem send_typed_agree (c v : Opnd) (hn : c.ty ≠ .nil) (hv : v.rv = .none) (hvt : v.ty.isUntyped = false)
+theorem send_typed_agree (c v : Opnd) (hv : v.rv = .none) (hvt : v.ty.isUntyped = false)
     (h1 : ∀ d t, c.ty = .chan d t → v.ty.isIface = false)
     (h2 : ∀ d t, c.ty = .chan d t → reflectCollision v.ty (.s t) = false) :
     sendY TE c v = sendG c v :=
-  send_agree c v hn (fun d t h =>
+  send_agree c v (fun d t h =>
     assignment_typed_agree v (.s t) hv hvt rfl (by simp [h1 d t h]) (h2 d t h))
 
 /-- F12-10 (8a6620e): an operand that cannot be indexed is an error on both sides (no Go panic, no acceptance),
@@ -678,5 +679,38 @@ theorem arrayLit_agree (T : TcFacts) (hm : T.arrayLitBound = .runningIndex) (hn 
       have ih := arrayLit_agree T hm hn hz hu false length rest (i + 1) (index + 1) (index :: vis)
       simp only [Bool.false_eq_true, ↓reduceIte] at ih
       simp [ih]
+
+/-! ### round 7: `operationResult` (aa2ac2f) and nil without typed operand (2992617) -/
+
+/-- F12-4 (aa2ac2f): the result of a non-constant, non-comparison operation of type `x.ty` assigned (`v = <op>`) or returned
+    where a non-interface type `dst` is expected: `operationResult` decides as Go's assignability, outside the two
+    open classes of assignments (interface value for a concrete type F12-6, reflect collision F12-5) -/
+theorem opResult_typed_agree (x : Opnd) (dst : Ty) (hx : x.rv = .none) (hxt : x.ty.isUntyped = false)
+    (hdt : dst.isUntyped = false) (hdi : dst.isIface = false)
+    (h1 : x.ty.isIface = false) (h2 : reflectCollision x.ty dst = false) :
+    opResultY TE x dst = (if assignableG x dst then .ok () else .err) := by
+  have ho : TE.opResultChecked = true := rfl
+  have e1 : TE.ops = FE := rfl
+  have hu : (RVal.none == RVal.ubool) = false := by decide
+  have hG : assignableG x dst = assignableTyG x.ty dst := by
+    unfold assignableG
+    cases hty : x.ty <;> simp [hty, Ty.isUntyped] at hxt ⊢ <;> simp [hx]
+  rw [hG]
+  unfold opResultY
+  simp only [ho, hdi, hx, hu, hxt, e1, assignableToY_typed x.ty dst hxt hdt (by simp [h1]) h2, okIf,
+    Bool.not_true, Bool.false_or, Bool.false_and, Bool.false_eq_true, ↓reduceIte]
+
+/-- F12-25 (2992617): a receive from, a send on and an index of `nil` are errors on both sides — no Go panic -/
+theorem nil_operand_errors (v i : Opnd) :
+    recvY TE ⟨.nil, .none⟩ = .err ∧ recvG ⟨.nil, .none⟩ = .err ∧
+    sendY TE ⟨.nil, .none⟩ v = .err ∧ sendG ⟨.nil, .none⟩ v = .err ∧
+    indexY TE ⟨.nil, .none⟩ i = .err ∧ indexG ⟨.nil, .none⟩ i = .err := by
+  have h : TE.typeKindNilSafe = true := rfl
+  refine ⟨?_, rfl, ?_, rfl, ?_, ?_⟩
+  · simp [recvY, h, Ty.isNil, Res.bind, bind]
+  · simp [sendY, h, Ty.isNil, Res.bind, bind]
+  · simp [indexY, h]
+  · have hu : (RVal.none == RVal.ubool) = false := by decide
+    simp [indexG, hu]
 
 end YaegiVerif.Typecheck
